@@ -63,15 +63,30 @@ class B2(B):
     pass          # inherits B's aliases, registered last: a drop-in replacement
 
 
+class C(Probe):
+    aliases = {"c"}
+
+
+class C1(C):
+    aliases = {"deep"}
+
+
+class D(Probe):
+    aliases = {"deep", "d"}      # shallower than C1 but registered later: the one registered last wins
+
+
 def resolve(alias: str) -> str:
     """
     pre: len(alias) <= %(maxlen)d
-    post: _ in ("A", "B", "A2", "B2", "ERR")
+    post: _ in ("A", "B", "A2", "B2", "C", "C1", "D", "ERR")
+    post: implies(alias == "deep", _ == "D")
+    post: implies(alias == "c", _ == "C")
+    post: implies(alias == "d", _ == "D")
     post: implies(alias == "shared", _ == "B2")
     post: implies(alias == "b", _ == "B2")
     post: implies(alias == "a", _ == "A2")
     post: implies(alias == "a2", _ == "A2")
-    post: implies(alias not in ("a", "b", "a2", "shared"), _ == "ERR")
+    post: implies(alias not in ("a", "b", "a2", "shared", "c", "d", "deep"), _ == "ERR")
     """
     try:
         return type(Probe.from_alias(alias)).__name__
@@ -147,6 +162,16 @@ def _hier(ns):
 
     class A2(A):
         aliases = {'a2', 'a'}
+
+    class C(Probe):
+        aliases = {'c'}
+
+    class C1(C):
+        aliases = {'deep'}
+
+    class D(Probe):
+        aliases = {'deep', 'd'}       # shallower than C1 but registered later
+    Probe._D = D
     return Probe, A, B, A2
 
 
@@ -154,10 +179,10 @@ def run_fromarg(cfg):
     ns = loader.load_unit('alias', name='pydrobert.speech.alias')
     Probe, A, B, A2 = _hier(ns)
     fn = ns['alias_factory_subclass_from_arg']
-    expect = {'a': A2, 'b': B, 'a2': A2, 'shared': B}
+    expect = {'a': A2, 'b': B, 'a2': A2, 'shared': B, 'deep': Probe._D}
     viol = []
     ob = dis = 0
-    vals = ['a', 'b', 'shared', 'nope']
+    vals = ['a', 'b', 'shared', 'deep', 'nope']
 
     def pick(name):
         for v in vals[:-1]:
@@ -458,7 +483,16 @@ def replay(w):
 
     class B2(B):
         pass
-    expect = {'a': 'A2', 'b': 'B2', 'a2': 'A2', 'shared': 'B2'}
+
+    class C(Probe):
+        aliases = {'c'}
+
+    class C1(C):
+        aliases = {'deep'}
+
+    class D(Probe):
+        aliases = {'deep', 'd'}
+    expect = {'a': 'A2', 'b': 'B2', 'a2': 'A2', 'shared': 'B2', 'deep': 'D', 'c': 'C', 'd': 'D'}
     for al, want in expect.items():
         got = type(Probe.from_alias(al)).__name__
         if got != want:
